@@ -368,7 +368,7 @@ Proof.
   - destruct (is_substr token [40; 91; 123]).
     { inversion H; subst s' out le. apply STD; auto. cbn [upd_f fstack]. rewrite (fpend_upd_same _ f _ LO) by reflexivity. exact FP. }
     destruct (is_substr token [41; 93; 125]).
-    { inversion H; subst s' out le. apply STD; auto. cbn [upd_f fstack]. rewrite (fpend_upd_same _ f _ LO); [exact FP|]. destruct ((parens f - 1 =? 0)%Z); reflexivity. }
+    { inversion H; subst s' out le. apply STD; auto. cbn [upd_f fstack]. rewrite (fpend_upd_same _ f _ LO); [exact FP|]. destruct ((parens f - 1 =? 0)%Z); [reflexivity|]. destruct ((parens f - 1 <? spec_count f)%Z); reflexivity. }
     destruct (starts_with [colon] token && (parens f - spec_count f =? 1)%Z).
     + inversion H; subst s' out le. apply STD; auto; [|lia]. cbn [upd_f fstack]. rewrite (fpend_upd_same _ f _ LO) by reflexivity. exact FP.
     + inversion H; subst s' out le. apply STD; auto.
